@@ -799,6 +799,10 @@ def gen_cases(ctx):
                 n = ctx.rng.randint(int(4.5 * w), 6 * w) if w >= 100 else ctx.rng.randint(6 * w, 10 * w)
                 add({"params": p, "data": shift_stream(ctx.rng, n, ctx.rng.randint(2, 5), w, kinds[k % 4]), "kind": kinds[k % 4]})
                 k += 1
+    # a window longer than 256 samples (CPython caches only the ints up to 256: an identity test on sizes behaves differently there)
+    for metric, scaling in ((("intersection", True),) if not ctx.thorough else (("intersection", True), ("kl", False))):
+        p = dict(gen_params(ctx, 300), divergence_metric=metric, online_scaling=scaling, sample_period=0.05)
+        add({"params": p, "data": shift_stream(ctx.rng, 4 * 300 + 150, 2, 300, "level"), "kind": "large-window"})
     for _ in range(ctx.scale(14, 300)):
         p = gen_params(ctx)
         w = p["window_size"]
